@@ -570,6 +570,11 @@ def replay(ob):
     fam.append(("C chain in a tight cell, pbc TFF", cc, 1, 0.3))
     n2 = Atoms("N2", positions=[[0.6, 0.6, 12], [0.6, 0.6, 13.1]], cell=[1.2, 1.2, 25], pbc=[False, False, True])
     fam.append(("N2 in a narrow cell, pbc FFT", n2, 0, 0.3))
+    # a bond 0.001 A inside the threshold (and one 0.004 A outside): the link test is d - r_i - r_j <= threshold, exactly
+    hh = Atoms("H", positions=[[0, 5, 5]], cell=[0.62 + 1.327, 10, 10], pbc=[True, False, False])
+    fam.append(("H chain, image 1.947 A away: 1.947 - 0.62 = 1.327 <= 1.328", hh, 1, 1.328))
+    h3 = Atoms("H3", positions=[[0, 5, 5], [1.0, 5, 5], [2.624, 5, 5]], cell=[12, 10, 10], pbc=False)
+    fam.append(("H-H 1.0 A, third H 1.624 A further: 1.624 - 0.62 = 1.004 > 1.0: two components", h3, None, 1.0))
     thin = Atoms("C2", positions=[[0.3, 1.0, 2.0], [0.3, 4.3, 2.0]], cell=[1.4, 12, 12], pbc=True)
     fam.append(("two C atoms 3.3 A apart in a cell 1.4 A thin (3.3 - 1.52 = 1.78 <= 3.5: one component, periodic along the thin direction only)", thin, 1, 3.5))
     kh = Atoms("KH", positions=[[0, 5, 5], [0, 6.5, 5]], cell=[4.2, 12, 12], pbc=[True, False, False])
